@@ -816,7 +816,7 @@ func Validate(dir Dir) error {
 	if err != nil {
 		return err
 	}
-	if ac.Sum() != ex.Sum() {
+	if ac.Sum() != ex.Sum() || !slices.Equal(ac, ex) {
 		err := &ChecksumError{Total: len(ac)}
 		// Determine the reason for the mismatch. Iterate over the file sum,
 		// based on it determine if a file was removed, added or edited.
